@@ -64,7 +64,10 @@ func newMessageSetFromProto(baseOffset, basePos int64, msgs []*Message, concurre
 	for i, m := range msgs {
 		data, err := encode(m)
 		if err != nil {
-			panic(err)
+			// E.g. a header key that does not fit the 16-bit length prefix.
+			// The message cannot be stored, which must not take the server
+			// down.
+			return nil, nil, err
 		}
 		var (
 			len    = int32(len(data))
